@@ -143,7 +143,7 @@ theorem hread_poll {g : MCfg} (ok : g.OKu) {c : Conn} {r : AReq} {sub : HSub} {d
   have hcapr := hi0.capK
   have hcapK : g.K.cap = g.cap := rfl
   rcases readAll_runT ok.cut (L := g.L1) (P := []) g.rest [] true
-      (2 * ((g.K.C.length - (accOf sub).length) / 64) + 2 * c.env.tr.input.length + 2) (handlerFuel c.env r)
+      (2 * ((g.K.C.length - (accOf sub).length) / 64) + 2 * c.env.tr.input.length + 2) ((handlerFuel c.env r + scriptOf c))
       r sub c.env dO 1 (by omega) (by omega) (fun h => by omega) hb hem hs with
     ⟨r', acc', e', dO', d1, d3, d5, d6, d8, d9⟩ |
     ⟨r', e', f', d1, _, d3, d4, _, _, _, d8, d9⟩
